@@ -175,6 +175,12 @@ fn do_chan_op(chans: &mut HashMap<i64, ChanSt>, op: &Op) {
             }
         }
         Op::Recv(c) => {
+            // a hub that hands work to background tasks (it must not) gets a moment to finish it,
+            // so that late / reordered deliveries become visible to the subscriber
+            if let Some(rt) = BG_RT.get() {
+                let mut spins = 0;
+                while rt.metrics().num_alive_tasks() > 0 && spins < 20 { std::thread::sleep(std::time::Duration::from_micros(250)); spins += 1; }
+            }
             let got = chans.get_mut(c).and_then(|ch| ch.rx.as_mut()).and_then(|rx| rx.try_recv().ok());
             match got {
                 Some(line) => emit(format!("ERecv {} (Some {})", z(*c), parse_line(&line))),
@@ -244,8 +250,20 @@ fn run_seq_case(calls: &[(i64, Op)]) -> String {
 }
 
 /// fixed scenarios that always run: full / never-read / closed subscribers in front of publish
+/// Runtime context for hub code that (wrongly) spawns background work: without one such a
+/// call would panic inside the harness instead of being observed.
+static BG_RT: std::sync::OnceLock<tokio::runtime::Runtime> = std::sync::OnceLock::new();
+
 fn fixed_scenarios() -> Vec<Vec<(i64, Op)>> {
     let mut v = vec![];
+    // overflow, then unsubscribe, then the stalled client drains: nothing published after the
+    // channel filled may surface later, least of all after the unsubscribe completed
+    v.push(vec![(0, Op::Chan(1, 1)), (0, Op::Sub(0, 1)), (1, Op::Pub(0, 1)), (1, Op::Pub(0, 2)), (0, Op::Unsub(0)),
+                (2, Op::Recv(1)), (2, Op::Recv(1)), (2, Op::Recv(1))]);
+    // overflow, one read, immediate publish, reads: order must stay the publication order
+    let mut o = vec![(0, Op::Chan(1, 1)), (0, Op::Sub(0, 1))];
+    for r in 0..12 { o.extend([(1, Op::Pub(0, 3 * r + 1)), (1, Op::Pub(0, 3 * r + 2)), (2, Op::Recv(1)), (1, Op::Pub(0, 3 * r + 3)), (2, Op::Recv(1)), (2, Op::Recv(1))]); }
+    v.push(o);
     // capacity 1, never read: every publish after the first hits Full and must still be Ready
     let mut a = vec![(0, Op::Chan(1, 1)), (0, Op::Sub(0, 1)), (0, Op::Sub(0, 1))];
     for d in 1..=5 { a.push((1, Op::Pub(0, d))); }
@@ -281,6 +299,7 @@ fn run_stress_case(rng: &mut Rng, nthreads: usize, nops: usize) -> String {
         // role mix: thread 0 is mostly a publisher (the housekeeping pass), others mostly clients
         let pub_w = if th == 0 { 70 } else { rng.range(10, 40) as u64 };
         handles.push(std::thread::spawn(move || {
+            let _rt_guard = BG_RT.get().map(|rt| rt.enter());
             let t = th as i64;
             let c = th as i64 + 1;
             let mut chans: HashMap<i64, ChanSt> = HashMap::new();
@@ -355,6 +374,8 @@ pub fn run(seed: u64, tier: &str, out: &Path, _extra: &[(String, String)]) -> st
     let mut run = Run::new("C20", "Run_C20", seed, tier, out);
     let mut rng = Rng::new(seed ^ 0xC20);
     install_observer();
+    let rt = BG_RT.get_or_init(|| tokio::runtime::Builder::new_multi_thread().worker_threads(2).enable_all().build().unwrap());
+    let _rt_guard = rt.enter();
     let scale = if run.thorough() { 10 } else { 1 };
     for sc in fixed_scenarios() {
         let text = run_seq_case(&sc);
